@@ -179,6 +179,7 @@ type Unit struct {
 	boundNow   map[string]bool
 	retReach []Term
 	retWhere []string
+	curLoopPre *State // state in which the most recently entered loop was entered (spec: atentry)
 }
 
 var unitSeq atomic.Int64
